@@ -10,8 +10,7 @@ dump of every program the real compiler produced; the theorems say what an `acce
   of the decode loop (what the VM does) agree on encoded length and stack effect for every opcode, up to
   the exceptions listed and justified in `Bytecode.TableException`.
 * `C02_verifier_sound` — for every program, entry and path of the abstract VM: every state reached is safe.
-* `C02_error_effect` / `C02_error_effect_partial` — the height and code position after a script error are
-  the ones the verifier assumed.
+* `C02_error_effect` — the height and code position after a script error are the ones the verifier assumed.
 -/
 namespace Morfuse.Bytecode
 open Gen
@@ -74,28 +73,16 @@ theorem C02_heights_agree (p : Program) (hv : verify p = true) (e₁ e₂ : Nat)
   simp only [Option.some.injEq, Prod.mk.injEq] at this
   exact ⟨this.1.symm, this.2.symm⟩
 
-/-- **Error paths (full statement).**  For every opcode and every way a script error can leave its `case`
-block - including the `catch (...)` repairs - the height and the code position are the ones of the
-fall-through path, i.e. what `step` (and so `C02_verifier_sound`) assumed.  The hypothesis is a closed
-boolean over `Gen/VmCases.lean`, regenerated from the source: it is `true` exactly when the source has the
-repaired shape of the five blocks listed in `errorPathSuspects`' doc (the check reports it as a failed
-obligation, with concrete failing programs, while it is `false`). -/
-theorem C02_error_effect (h : errorPathsRepaired = true) (o : Opcode) (e : ErrPath) (he : e ∈ vmErrPaths o) :
-    errPathOk o e = true :=
-  (List.all_eq_true.mp (forall_opcode_of_all h o)) e he
-
-/-- **Error paths (what holds for the source as it is).**  Missing with respect to `C02_error_effect`: the
-twelve opcodes of `errorPathSuspects` (`loadTop` skips its `Pop` when the setter raises; `OP_STORE_OWNER`
-pushes twice; `OP_LOAD_STORE_SELF_VAR` and the cast path of `OP_STORE_FIELD_REF` leave the operands unread;
-`OP_STORE_FIELD` skips them twice). -/
-theorem C02_error_effect_partial (o : Opcode) (ho : o ∉ errorPathSuspects) (e : ErrPath) (he : e ∈ vmErrPaths o) :
-    errPathOk o e = true := by
-  have key : Opcode.all.all (fun o => errorPathSuspects.contains o || errOk o) = true := by decide
-  have := forall_opcode_of_all key o
-  simp only [Bool.or_eq_true, List.contains_iff_mem] at this
-  rcases this with h | h
-  · exact absurd h ho
-  · exact (List.all_eq_true.mp h) e he
+/-- **Error paths.**  For every opcode and every way a script error can leave its `case` block - including
+the `catch (...)` repairs of `OP_LOAD_FIELD_VAR`, `OP_STORE_FIELD`, `OP_STORE_FIELD_REF`, `OP_STORE_ARRAY`,
+`loadTop`, `ExecFunction`, `executeCommandInternal<true>` - the height and the code position at that moment
+are the ones of the fall-through path, i.e. what `step` (and so `C02_verifier_sound`) assumed: same net
+height change, the count-dependent parameters popped iff the normal path pops them, all operand bytes of the
+instruction stepped over.  (Model level: `vmErrPaths` is the hand transcription of the source whose text is
+fingerprinted on every run, obligation T2; the real VM's behaviour after errors is compared transition by
+transition in the correspondence.) -/
+theorem C02_error_effect (o : Opcode) (e : ErrPath) (he : e ∈ vmErrPaths o) : errPathOk o e = true :=
+  (List.all_eq_true.mp (forall_opcode_of_all (P := errOk) (by decide) o)) e he
 
 /-! ## non-vacuity -/
 
@@ -129,10 +116,14 @@ example : ∃ s, AbsVM.run realProgram (AbsVM.start 0) [0, 0, 0, 0, 0, 1] = some
 /-- `insideInstr` is not vacuous: offset 22 is inside the `OP_VAR_JUMP_FALSE4` at 21 -/
 example : insideInstr realProgram 21 22 := ⟨⟨.OP_VAR_JUMP_FALSE4, 5, 1, 0⟩, by decide +kernel, by decide, by decide⟩
 
-/-- error paths: the list is not empty, and a repaired block is accepted while the transcribed one is not -/
+/-- error paths: the lists are not empty, and the shapes the source had before its repairs (double push in
+`OP_STORE_OWNER`, operands left unread by `OP_STORE_FIELD_REF`, skipped twice by `OP_STORE_FIELD`, value
+left by `loadTop`) are refused by `errPathOk` -/
 example : vmErrPaths .OP_STORE_ARRAY = [⟨-1, false, some 0⟩] ∧ errOk .OP_STORE_ARRAY = true := by decide
 example : errPathOk .OP_STORE_OWNER ⟨2, false, some 0⟩ = false ∧ errPathOk .OP_STORE_OWNER ⟨1, false, some 0⟩ = true := by decide
-example : Opcode.OP_BIN_DIVIDE ∉ errorPathSuspects ∧ vmErrPaths .OP_BIN_DIVIDE ≠ [] := by decide
+example : errPathOk .OP_STORE_FIELD_REF ⟨0, false, some 0⟩ = false ∧ errPathOk .OP_STORE_FIELD ⟨0, false, some 16⟩ = false
+    ∧ errPathOk .OP_LOAD_LOCAL_VAR ⟨0, false, some 8⟩ = false := by decide
+example : (Opcode.all.filter (fun o => vmErrPaths o ≠ [])).length = 74 := by decide
 
 /-- table against VM: a changed length is noticed -/
 example : vmLength .OP_STORE_INT2 = some 3 ∧ Opcode.OP_STORE_INT2.tableLength = 3 := by decide
